@@ -738,7 +738,7 @@ impl GoalSampleableRegion<S> for LogGoal {
 fn fam_extension_reference(o: &mut Out, seed0: u64, deadline: Instant) {
     'outer: for ds in 0..6u64 {
         for wk in [7u64, 0, 2] {
-            for (star, step, radius) in [(false, 0.6, 0.0), (true, 0.6, 1.3), (true, 0.4, 2.0), (true, 1.2, 2.0)] {
+            for (star, step, radius) in [(false, 0.6, 0.0), (true, 0.6, 1.3), (true, 0.4, 2.0), (true, 1.2, 2.0), (true, 1.0, 0.8), (true, 0.7, 0.7)] {      // (the last two: a radius that does not exceed the step)
                 if Instant::now() > deadline { break 'outer; }
                 let seed = seed0.wrapping_mul(1000) + 30_000 + (ds * 8 + wk) * 40 + (step * 10.0) as u64 + star as u64 + (radius * 2.0) as u64;
                 let log = Arc::new(Mutex::new(vec![]));
@@ -750,11 +750,21 @@ fn fam_extension_reference(o: &mut Out, seed0: u64, deadline: Instant) {
                 let vc: Arc<dyn StateValidityChecker<S>> = w.clone();
                 let cfg = PlannerConfig { seed: Some(seed) };
                 let name = if star { "RRT*" } else { "RRT" };
+                // two solve calls on the same instance (odd ds): the second one goes on from the tree the first one left, and so does the reference
+                let twice = ds % 2 == 1;
+                let log2 = log.clone();
                 let r = std::panic::catch_unwind(std::panic::AssertUnwindSafe(|| {
-                    if star { let mut p: RRTStar<S, LogSpace, LogGoal> = RRTStar::new(step, 0.1, radius, &cfg); p.setup(pdx.clone(), vc.clone()); p.solve(Duration::from_millis(250)) }
-                    else { let mut p: RRT<S, LogSpace, LogGoal> = RRT::new(step, 0.1, &cfg); p.setup(pdx.clone(), vc.clone()); p.solve(Duration::from_millis(250)) }
+                    if star {
+                        let mut p: RRTStar<S, LogSpace, LogGoal> = RRTStar::new(step, 0.1, radius, &cfg); p.setup(pdx.clone(), vc.clone());
+                        let r1 = p.solve(Duration::from_millis(250)); let mark = log2.lock().unwrap().len();
+                        if twice && r1.is_ok() { let r2 = p.solve(Duration::from_millis(150)); vec![(mark, r1), (usize::MAX, r2)] } else { vec![(usize::MAX, r1)] }
+                    } else {
+                        let mut p: RRT<S, LogSpace, LogGoal> = RRT::new(step, 0.1, &cfg); p.setup(pdx.clone(), vc.clone());
+                        let r1 = p.solve(Duration::from_millis(250)); let mark = log2.lock().unwrap().len();
+                        if twice && r1.is_ok() { let r2 = p.solve(Duration::from_millis(150)); vec![(mark, r1), (usize::MAX, r2)] } else { vec![(usize::MAX, r1)] }
+                    }
                 }));
-                let solved = match r { Ok(x) => x, Err(_) => continue };
+                let phases = match r { Ok(x) => x, Err(_) => continue };
                 let evs = log.lock().unwrap().clone();
                 let mut tree: Vec<S> = vec![start.clone()];
                 let lvsl = sp.inner.get_longest_valid_segment_length();
@@ -773,7 +783,10 @@ fn fam_extension_reference(o: &mut Out, seed0: u64, deadline: Instant) {
                 let mut parent: Vec<Option<usize>> = vec![None];
                 let mut cost: Vec<f64> = vec![0.0];
                 let mut clean = true;
-                for ev in evs.iter().take(6000) {
+                let mut from = 0usize;
+                for (mark, solved) in phases.iter() {
+                let upto = (*mark).min(evs.len()).min(6000);
+                for ev in evs[from.min(upto)..upto].iter() {
                     match ev {
                         Ev::Sample(q) => {
                             if let Some((pq, bi, exp, valid)) = pending.take() {
@@ -811,8 +824,9 @@ fn fam_extension_reference(o: &mut Out, seed0: u64, deadline: Instant) {
                     }
                 }
                 // C15 / C17: the returned path is the reference tree's parent chain of the node that reached the goal (state for state)
+                from = upto;
                 if clean && evs.len() < 6000 {
-                    if let Ok(path) = &solved {
+                    if let Ok(path) = solved {
                         let mut chain = vec![];
                         let mut cur = Some(tree.len() - 1);
                         let mut guard = 0;
@@ -825,6 +839,8 @@ fn fam_extension_reference(o: &mut Out, seed0: u64, deadline: Instant) {
                                 path.0.len(), chain.len(), k, path.0.get(k).map(|s| s.values.clone()), chain.get(k).map(|s| s.values.clone())));
                         }
                     }
+                }
+                if !clean { break; }
                 }
             }
         }
